@@ -168,6 +168,21 @@ def law_sweep(ctx, atm):
     law("mixed:liquid-branch", (T > TT + 1e-9) & (rel(em, el) > 1e-12), [T], "mixed = liquid above T_t")
     lo, hi = np.minimum(ei, el), np.maximum(ei, el)
     law("mixed:between", (em < lo * (1 - 1e-12)) | (em > hi * (1 + 1e-12)), [T], "mixed between ice and liquid")
+    law("positive:e_eq_mixed_mk", em <= 0, [T], "mixed-phase saturation pressure positive")
+    # theorem mixed_phase_increasing: strictly increasing on all of [100, 400] K, across both joints (the grid
+    # contains both joint temperatures; points closer than 1e-9 K are not compared strictly)
+    law("increasing:e_eq_mixed_mk", gap & (np.diff(em) <= 0), [T[1:]], "e_eq_mixed_mk strictly increasing")
+    for joint in (TT - 23, TT):
+        # a fine ladder of doubles through each joint: non-decreasing up to rounding (1e-13 relative), and strictly
+        # increasing over steps of 1e-6 K
+        tt = np.concatenate([[near(joint, k) for k in range(-8, 9)], joint + np.arange(-50, 51) * 1e-6])
+        tt = np.unique(tt)
+        vv = atm.e_eq_mixed_mk(tt)
+        law("increasing:e_eq_mixed_mk", np.diff(vv) < -1e-13 * np.abs(vv[1:]), [tt[1:]],
+            "e_eq_mixed_mk non-decreasing through the joint")
+        coarse = joint + np.arange(-50, 51) * 1e-6
+        vc = atm.e_eq_mixed_mk(coarse)
+        law("increasing:e_eq_mixed_mk", np.diff(vc) <= 0, [coarse[1:]], "e_eq_mixed_mk strictly increasing through the joint")
     for joint in (TT - 23, TT):
         tt = np.array([near(joint, k) for k in (-2, -1, 0, 1, 2)])
         vals = atm.e_eq_mixed_mk(tt)
@@ -204,7 +219,7 @@ def law_sweep(ctx, atm):
     # right-hand side when the saturation mixing ratio is ~1e-20 (T near 100 K): allow 16 ulp of g/cp absolutely
     law("lapse-limit", ok & (np.abs(lapse - gd) > gd * b * wsat * (1 + 1e-9) + 16 * np.finfo(float).eps * gd), [p, T],
         "|lapse - g/cp| <= (g/cp) b w")
-    return out, 6 * x.size + 6 * w.size + 12 * T.size
+    return out, 6 * x.size + 6 * w.size + 14 * T.size + 2 * (118 + 101)
 
 
 def exact_fraction_check(atm):
@@ -276,7 +291,10 @@ def run(ctx):
                        "when Coq proved the enclosure for a distinct (function, arguments); the law sweep evaluates the "
                        "stated laws on the implementation at many more points (law_evaluations)")
     ctx.assumptions += ["domains as in the property: mixing ratios in [0,1), 100 <= T <= 400 K, 1..1100 hPa",
-                        "mixed-phase continuity is proved as joint-value equalities (named gap: epsilon-delta continuity)"]
+                        "mixed-phase continuity is proved in the epsilon-delta sense at every T > 0 (Coquelicot `continuous`, stdlib "
+                        "`continuity_pt` and an explicit epsilon-delta statement), from the joint-value equalities and the "
+                        "differentiability of the three branch formulas; strict monotonicity of e_eq_mixed_mk is proved on [100, 400] K "
+                        "(blend: sign of the derivative on [T_t - 23, T_t] by interval arithmetic with bisection)"]
     return ctx.finish(trusted_base=TRUSTED)
 
 
